@@ -353,7 +353,7 @@ impl SendRateComp {
                     let current_limit = state.send_rate_tcp.min(recv_rate.saturating_mul(2));
                     let new_limit = (current_limit/2).max(MINIMUM_RATE);
                     self.recv_rate_set.reset(now_ms, new_limit/2);
-                    self.send_rate = state.send_rate_tcp.min(new_limit).min(self.max_send_rate);
+                    self.send_rate = state.send_rate_tcp.min(new_limit).max(MINIMUM_RATE).min(self.max_send_rate);
                 }
             }
             _ => panic!()
